@@ -1,7 +1,110 @@
 import KitModel.Go.Prelude
-/-! Driver for property C19: `kitdrv C19` reads op lines on stdin, one answer line per input line. -/
+import KitModel.Spiffe
+/-!
+Driver for property C19: `kitdrv C19` reads one request per line, answers one line per request.
+
+* `lts v=fixed|cur ev=<e1>,<e2>,…` — trace inclusion for the readiness LTS: the observable events of
+  a real execution are run through the τ-closed state-set simulation (`Kit.Spiffe.accept`).
+  Events: `cr` `cy` `cg` `cgp` `cr2` `park:i` `rel:i` `cx:i` `req:k` `rep:0|1`
+  `ret:i:ok|ctx|e|s<k>` `rret:err` `q:i+j+…`.  Answer: `accept` or `reject k=<index> ev=<event> …`.
+* `renew dir=0|1 anch=<n> t0=<ns> script=<o:nb:na|f|a:nb:na>,… steps=<a:ns|t:n>,…` — runs the renewal
+  automaton; answer: requests, served token after each step, armed timers, published file sets.
+-/
 namespace Driver.C19
+open Kit Kit.Spiffe
+
+def parseEv (w : String) : Option Ev :=
+  match w.splitOn ":" with
+  | ["cr"] => some .callRun
+  | ["cy"] => some .callReady
+  | ["cg"] => some (.callGet false)
+  | ["cgp"] => some (.callGet true)
+  | ["cr2"] => some .callRun2
+  | ["park", i] => i.toNat?.map .park
+  | ["rel", i] => i.toNat?.map .release
+  | ["cx", i] => i.toNat?.map .cancel
+  | ["req", k] => k.toNat?.map .req
+  | ["rep", "1"] => some (.rep true)
+  | ["rep", "0"] => some (.rep false)
+  | ["ret", i, "ok"] => i.toNat?.map (.ret · (.yDone true))
+  | ["ret", i, "ctx"] => i.toNat?.map (.ret · (.yDone false))
+  | ["ret", i, "e"] => i.toNat?.map (.ret · (.gDone none))
+  | ["ret", i, r] =>
+    if r.startsWith "s" then
+      match i.toNat?, (r.drop 1).toString.toNat? with
+      | some i, some k => some (.ret i (.gDone (some k)))
+      | _, _ => none
+    else none
+  | ["rret", "err"] => some (.runRet true)
+  | ["q", p] =>
+    if p == "" then some (.quiet [])
+    else ((p.splitOn "+").mapM String.toNat?).map .quiet
+  | _ => none
+
+def showRun (r : RunPc) : String := (reprStr r).replace "Kit.Spiffe.RunPc." ""
+def showCons (c : ConsPc) : String := (reprStr c).replace "Kit.Spiffe.ConsPc." ""
+
+def showSt (s : St) : String :=
+  s!"[run={showRun s.run} readers={s.readers} wPend={s.wPend} wHeld={s.wHeld} ready={s.ready} svid={s.svid} cons={s.cons.map showCons}]"
+
+def doLts (l : Line) : String :=
+  let v : Variant := if l.get? "v" == some "cur" then .cur else .fixed
+  let ws := ((l.get? "ev").getD "").splitOn "," |>.filter (· ≠ "")
+  match ws.mapM parseEv with
+  | none => "error bad-event"
+  | some evs =>
+    match accept v evs with
+    | (none, m) => s!"accept states={m.states.length}"
+    | (some k, m) =>
+      let shown := " ".intercalate ((m.states.take 4).map showSt)
+      s!"reject k={k} ev={ws.getD k "?"} states={m.states.length} parked={m.parked} before={shown}"
+
+def parseReply (w : String) : Option Reply :=
+  match w.splitOn ":" with
+  | ["f"] => some .fail
+  | ["o", a, b] => match a.toInt?, b.toInt? with | some a, some b => some (.ok a b) | _, _ => none
+  | ["a", a, b] => match a.toInt?, b.toInt? with | some a, some b => some (.okAnchorsFail a b) | _, _ => none
+  | _ => none
+
+def parseAct (w : String) : Option Act :=
+  match w.splitOn ":" with
+  | ["a", d] => d.toInt?.map .adv
+  | ["t", n] => n.toNat?.map .anchors
+  | _ => none
+
+def showObs (s : RN) : String × String :=
+  ((match s.svid with | some c => toString c.tok | none => "none"),
+   (match s.pub with | f :: _ => s!"{f.key}/{f.chain}/{f.anchors}" | [] => "none"))
+
+def doRenew (l : Line) : String :=
+  let dirOn := l.get? "dir" == some "1"
+  let anch := (l.nat? "anch").getD 0
+  let t0 := (l.int? "t0").getD 0
+  let sw := ((l.get? "script").getD "").splitOn "," |>.filter (· ≠ "")
+  let aw := ((l.get? "steps").getD "").splitOn "," |>.filter (· ≠ "")
+  match sw.mapM parseReply, aw.mapM parseAct with
+  | some script, some acts =>
+    let s0 := start dirOn anch script t0
+    let (sN, obs) := acts.foldl (fun (acc : RN × List (String × String)) a =>
+      let s' := act acc.1 a
+      (s', acc.2 ++ [showObs s'])) (s0, [showObs s0])
+    let reqs := ",".intercalate (sN.log.reverse.map fun r => s!"{r.stamp}:{if r.good then 1 else 0}")
+    let timers := ",".intercalate (sN.timers.reverse.map fun t => s!"{t.1}:{t.2}")
+    let served := ",".intercalate (obs.map (·.1))
+    let pub := ",".intercalate (obs.map (·.2))
+    let writes := ",".intercalate (sN.pub.reverse.map fun f => s!"{f.key}/{f.chain}/{f.anchors}")
+    let mode := match sN.mode with | .waiting => "waiting" | .retrying => "retrying" | .dead => "dead"
+    s!"reqs={reqs};served={served};timers={timers};pub={pub};writes={writes};mode={mode}"
+  | _, _ => "error bad-script"
+
+def handle (_ : Unit) (line : String) : Unit × String :=
+  let l := parseLine line
+  match l.op with
+  | "lts" => ((), doLts l)
+  | "renew" => ((), doRenew l)
+  | _ => ((), "error unknown-op")
+
 def main (_args : List String) : IO UInt32 := do
-  IO.eprintln "kitdrv: C19 has no model driver yet"
-  return 2
+  lineLoop handle ()
+  return 0
 end Driver.C19
